@@ -473,7 +473,16 @@ pub fn section_text_styled(name: Option<&str>, probe: &str, s: &Section, style: 
 
 pub fn join_features(f: &[String], sloppy: bool) -> String {
     if sloppy && !f.is_empty() {
-        format!(" {}  ", f.join("   "))
+        // several blanks, a tab, leading and trailing blanks; a list with a repeated separator style
+        let mut t = String::from(" ");
+        for (i, x) in f.iter().enumerate() {
+            if i > 0 {
+                t.push_str(if i % 2 == 1 { "   " } else { "\t " });
+            }
+            t.push_str(x);
+        }
+        t.push_str("  ");
+        t
     } else {
         f.join(" ")
     }
